@@ -118,6 +118,18 @@ def gen_cases(ctx):
         for mirror in (None, mir):
             cases.append({"kind": "locate_single", "elem": el, "verts": verts, "shape": shape, "mirror": mirror, "seed": rng.randint(0, 10**6),
                           "field": field(rng, d, deg), "iterative": it, "sizes": [1, 2, 3, d, d + 1, 50]})
+    # nearly-affine elements: a parallelogram / parallelepiped with ONE vertex moved by 1e-5 .. 3e-6 of its size — the isoparametric map is
+    # not affine (Jacobian ratio off 1 by ~1e-6), so the affine shortcut of the inverse map is off by O(1e-6) while the iterative one is exact
+    # (2-D only: moving one vertex of a hexahedron makes three faces non-planar, which the planar-face containment test does not claim to handle;
+    #  the seeds of these cases come from their own generator so that every other case of the run is unchanged)
+    import random as _random
+    rng_na = _random.Random(808)
+    for el, base_v, dlt in [("QUAD4", par, 1e-5), ("QUAD4", par, 3e-6)] + ([("QUAD9", par, 1e-5), ("QUAD8", par, 3e-6)] if thorough else []):
+        d = DIM[fam(el)]
+        near = [list(map(float, p)) for p in base_v]
+        near[2] = [near[2][0] + dlt * 2.0, near[2][1] - dlt * 1.5, near[2][2] + (dlt if d == 3 else 0.0)]
+        cases.append({"kind": "locate_single", "elem": el, "verts": near, "shape": "near-affine", "mirror": None, "seed": rng_na.randint(0, 10**6),
+                      "field": field(rng_na, d, 1), "iterative": True, "sizes": [1, 2, 3, d, d + 1, 50]})
     outs = {"TETRA": [[0.3, 0.3, -0.05], [0.4, 0.4, 0.3], [-0.05, 0.3, 0.3]], "HEXA": [[0.2, 0.3, 1.1], [1.05, 0, 0], [0, -1.2, 0.5]],
             "PRISM": [[0.3, 0.3, 1.05], [0.3, 0.3, -1.1], [0.2, 0.2, 1.2], [0.6, 0.6, 0.0]]}
     # query / move / query sequences on the same mesh object (stale caches across moves)
